@@ -269,6 +269,32 @@ fn float_probe() -> Option<String> {
         Err(e) => Some(format!("{{\"fingerprint\":\"C02:float-probe-failed\",\"error\":{}}}", json_str(&e))),
     }
 }
+/// Regular expressions are outside the model; one pair is pinned here: `/k/i` and `/(k)/i` are the
+/// same regular expression, so `x matches` either must agree for every x (the first is a literal
+/// and gets rewritten by the compiler, the second is matched as a regexp).
+fn regexp_probe() -> Option<String> {
+    let src = "rule literal { condition: gs0 matches /k/i }\nrule group { condition: gs0 matches /(k)/i }\nrule literal2 { condition: gs1 matches /caf\\xc3\\xa9/i }\nrule group2 { condition: gs1 matches /(caf\\xc3\\xa9)/i }\n";
+    let r = catch(std::panic::AssertUnwindSafe(|| {
+        let mut c = yara_x::Compiler::new();
+        c.define_global("gs0", "").map_err(|e| e.to_string())?;
+        c.define_global("gs1", "").map_err(|e| e.to_string())?;
+        c.add_source(src).map_err(|e| e.to_string())?;
+        let rules = c.build();
+        let mut s = yara_x::Scanner::new(&rules);
+        s.set_global("gs0", &b"\xe2\x84\xaa"[..]).map_err(|e| e.to_string())?;
+        s.set_global("gs1", &b"CAF\xc3\x89"[..]).map_err(|e| e.to_string())?;
+        let res = s.scan(b"a").map_err(|e| e.to_string())?;
+        let mut v: Vec<String> = res.matching_rules().map(|r| r.identifier().to_string()).collect();
+        v.sort();
+        Ok::<_, String>(v)
+    })).unwrap_or_else(|p| Err(format!("panic: {}", p)));
+    match r {
+        Ok(v) if v.contains(&"literal".to_string()) != v.contains(&"group".to_string()) || v.contains(&"literal2".to_string()) != v.contains(&"group2".to_string()) =>
+            Some(format!("{{\"fingerprint\":\"C02:case-insensitive-literal-regexp-rewritten-to-icontains\",\"source\":{},\"gs0_hex\":\"e284aa\",\"gs1_hex\":\"434146c389\",\"matching\":{:?},\"expected\":\"literal iff group, literal2 iff group2: the same regular expressions\"}}", json_str(src), v)),
+        Ok(_) => None,
+        Err(e) => Some(format!("{{\"fingerprint\":\"C02:regexp-probe-failed\",\"error\":{}}}", json_str(&e))),
+    }
+}
 /// conditions outside the modelled language whose verdict is known by construction (the
 /// test_proto2 module fills its maps with fixed values whatever the data): a `for k, v in <map>`
 /// loop must not depend on what an earlier `with` left in the slots its variables reuse
@@ -560,7 +586,7 @@ pub fn run(args: &[String]) -> i32 {
     let unexpected = expectation_probe();
     if !unexpected.is_empty() { for u in &unexpected { eprintln!("c02: {}", u); } return 2; }
     // probes outside the model that found something (the `of`-tuple order pair is now a corpus case)
-    let findings: Vec<String> = float_probe().into_iter().collect();
+    let findings: Vec<String> = float_probe().into_iter().chain(regexp_probe()).collect();
     println!("{{\"findings\":[{}],\"evaluations\":{},\"distinct_nontrivial\":{},\"shards\":{},\"distribution\":{},\"samples\":[{}],\"panic_samples\":{}}}",
         findings.join(","), shards.total, distinct.len(), shards.shard_count, stats.json(), samples.join(","), serde_json::to_string(&panics).unwrap());
     0
